@@ -136,7 +136,19 @@ func (s *session) block(kind string, a []int, hexpix string) (string, bool) {
 	// it is rescaled); halfq / fullq: an *image.Paletted source whose palette holds the distinct pixels as color.NRGBA
 	// (the scaler's generic path scale_RGBA_Image_{Over,Src})
 	var img image.Image
-	if strings.HasSuffix(kind, "g") {
+	if strings.HasSuffix(kind, "s") {
+		// halfs / fulls (round 4, F420): the WxH pixels are a crop (SubImage) of a larger *image.NRGBA whose margin holds
+		// other pixels: Bounds().Min is not the origin
+		mx, my := 3+W%4, 2+H%3
+		big := image.NewNRGBA(image.Rect(0, 0, W+mx+2, H+my+1))
+		for i := range big.Pix {
+			big.Pix[i] = uint8(91*i + 7)
+		}
+		for y := 0; y < H; y++ {
+			copy(big.Pix[(y+my)*big.Stride+4*mx:], pix[4*y*W:4*(y+1)*W])
+		}
+		img = big.SubImage(image.Rect(mx, my, mx+W, my+H))
+	} else if strings.HasSuffix(kind, "g") {
 		im := image.NewGray(image.Rect(0, 0, W, H))
 		for i := range im.Pix {
 			im.Pix[i] = pix[4*i]
@@ -387,7 +399,7 @@ func (s *session) execOp(f []string) (string, bool) {
 			return "panic", true
 		}
 		return res, true
-	case "half", "full", "halfp", "fullp", "halfg", "fullg", "halfq", "fullq", "halfy", "fully", "halfz", "fullz", "halfu", "fullu", "halfv", "fullv", "halfw", "fullw":
+	case "half", "full", "halfp", "fullp", "halfg", "fullg", "halfq", "fullq", "halfy", "fully", "halfz", "fullz", "halfu", "fullu", "halfv", "fullv", "halfw", "fullw", "halfs", "fulls":
 		if len(f) != 10 {
 			return "", false
 		}
@@ -938,14 +950,14 @@ func genBlocks(r *hx.Run, rng *gen.Rng, do func(string) string) {
 	// round 4: sources of other concrete types — *image.Gray (the scaler's Gray fast path), *image.Paletted with a
 	// color.NRGBA palette (the scaler's generic path; translucent entries in half of them), *image.YCbCr 4:4:4 and 4:2:0
 	// (the scaler's YCbCr fast paths; what JPEGs decode to) — unscaled and rescaled
-	mg := 1500
+	mg := 1800
 	if r.Thorough {
-		mg = 15000
+		mg = 18000
 	}
 	for i := 0; i < mg; i++ {
 		W, H := rng.Range(1, 9), rng.Range(1, 12)
 		kind := gen.Pick(rng, []string{"halfg", "fullg", "halfq", "fullq", "halfq", "fullq", "halfy", "fully", "halfz", "fullz", "halfz", "fullz",
-			"halfu", "fullu", "halfv", "fullv", "halfw", "fullw"})
+			"halfu", "fullu", "halfv", "fullv", "halfw", "fullw", "halfs", "fulls", "halfs", "fulls"})
 		px := make([][4]int, W*H)
 		var pal [][4]int
 		translucent := rng.Chance(1, 2)
@@ -960,7 +972,7 @@ func genBlocks(r *hx.Run, rng *gen.Rng, do func(string) string) {
 			if strings.HasSuffix(kind, "g") {
 				y := rng.Intn(256)
 				px[k] = [4]int{y, y, y, 255}
-			} else if strings.HasSuffix(kind, "w") {
+			} else if strings.HasSuffix(kind, "w") || strings.HasSuffix(kind, "s") {
 				px[k] = [4]int{rng.Intn(256), rng.Intn(256), rng.Intn(256), 255}
 			} else if !strings.HasSuffix(kind, "q") {
 				// (Y, Cb, Cr), extremes included (conversions that clamp)
